@@ -12,7 +12,7 @@ META = dict(
         thorough="same with S<=4 and more layouts",
     ),
     outside=["the samplers themselves (SciPy qmc, OpenTURNS, pyDOE, RNG code): that they return points of the unit cube, their sample counts and seed determinism are assumptions, not results",
-             "CustomDOE", "the level computation of full-factorial designs (int(n ** (1/d)) is a float operation)"],
+             "CustomDOE file parsing", "the level computation of full-factorial designs (int(n ** (1/d)) is a float operation)"],
     stubs=["unit sampler -> symbolic matrix in [0,1]^{S x d}", "float bounds injected into Variable.__dict__"],
     assumptions=["unit samples lie in [0,1]", "lb <= ub, integer bounds integral"],
 )
@@ -122,6 +122,27 @@ def h_execute(ctx, cfg):
     ctx.observe("samples", np.ravel(lib.samples))
 
 
+def h_custom(ctx, cfg):
+    """CustomDOE returns exactly the given samples, in order, with or without a design space (the samples are physical points)."""
+    from gemseo.algos.doe.custom_doe.custom_doe import CustomDOE
+
+    ds, info = build_space(ctx, LAYOUTS[cfg["layout"]])
+    d, S = info.n, cfg["S"]
+    rows = []
+    for s_ in range(S):
+        r = [ctx.real(f"s{s_}_{j}") for j in range(d)]
+        for j, v in enumerate(r):
+            ctx.assume(ctx.and_(ctx.le(info.lb[j], v), ctx.le(v, info.ub[j])))
+            if info.is_int[j]:
+                ctx.assume(ctx.is_int(v))
+        rows.append(r)
+    given = ctx.array(rows)
+    out = CustomDOE().compute_doe(ds if cfg["with_space"] else d, samples=given)
+    ctx.observe("samples", np.ravel(out))
+    check_array(ctx, "CustomDOE returns the given samples in order", out, rows)
+    check_array(ctx, "given samples untouched", given, rows)
+
+
 def configs(tier):
     out = []
     quick = tier == "quick"
@@ -134,6 +155,9 @@ def configs(tier):
         out.append(("compute_doe", dict(layout=lay, S=2, int_norm_initial=False, unit_sampling=True)))
     for lay in ("B", "Ci", "iC", "i"):
         out.append(("execute", dict(layout=lay, S=2)))
+    for lay in ("B", "BB", "Ci", "iC"):
+        for with_space in (True, False):
+            out.append(("custom", dict(layout=lay, S=2, with_space=with_space)))
     return out
 
 
@@ -145,4 +169,4 @@ def crosshair_targets(tier):
             for n in ("_explicit_seed_returned", "_default_seed_sequence", "_explicit_then_default", "_two_seeders_agree")]
 
 
-HARNESSES = {"compute_doe": h_compute_doe, "execute": h_execute}
+HARNESSES = {"compute_doe": h_compute_doe, "execute": h_execute, "custom": h_custom}
